@@ -134,6 +134,55 @@ func init() {
 		}
 		x.DefOptBool("loadSetsFullNeeded", lf, lfound)
 
+		x.Comment("store/command_processor.go Process, case LOAD: every return as \"<mutated>,<error|ok>\" in source order (no panic/exit on I/O failure)")
+		var loadRets []string
+		if fd := x.Func("store", "CommandProcessor", "Process"); fd != nil {
+			ast.Inspect(fd.Body, func(n ast.Node) bool {
+				cc, ok := n.(*ast.CaseClause)
+				if !ok || len(cc.List) != 1 || x.Src(cc.List[0]) != "proto.Command_COMMAND_TYPE_LOAD" {
+					return true
+				}
+				for _, st := range cc.Body {
+					ast.Inspect(st, func(m ast.Node) bool {
+						switch v := m.(type) {
+						case *ast.FuncLit:
+							return false
+						case *ast.ReturnStmt:
+							if len(v.Results) == 3 {
+								resp := "ok"
+								if strings.Contains(x.Src(v.Results[2]), "error:") {
+									resp = "error"
+								}
+								loadRets = append(loadRets, x.Src(v.Results[1])+","+resp)
+							} else {
+								loadRets = append(loadRets, "?")
+							}
+						case *ast.CallExpr:
+							if p := x.Src(v.Fun); p == "os.Exit" || strings.HasSuffix(p, ".Fatalf") || strings.HasSuffix(p, ".Fatal") {
+								loadRets = append(loadRets, "exit:"+p)
+							}
+						}
+						return true
+					})
+				}
+				return false
+			})
+		}
+		x.DefStrings("loadCaseReturns", loadRets)
+		x.Comment("store/store.go fsmSnapshot: the kind of snapshot is decided by reading what is due next")
+		if fd := x.Func("store", "Store", "fsmSnapshot"); fd != nil {
+			steps := x.callSeq(fd.Body, "s.snapshotDueNext")
+			ast.Inspect(fd.Body, func(n ast.Node) bool {
+				if is, ok := n.(*ast.IfStmt); ok && x.Src(is.Cond) == "dueNext.IsFull()" {
+					steps = append(steps, "if "+x.Src(is.Cond))
+				}
+				return true
+			})
+			x.DefStrings("snapshotKindSteps", steps)
+		} else {
+			x.DefStrings("snapshotKindSteps", nil)
+		}
+
 		// ---- C03: step order of snapshot / restore / open ---------------------------
 		x.Comment("store/fsm.go (*FSMSnapshot).Persist: data first; the finalizer is handed to the sink (SetAfterClose), run directly only for sinks that cannot")
 		if fd := x.Func("store", "FSMSnapshot", "Persist"); fd != nil {
